@@ -12,9 +12,9 @@ From Fibre Require Import Common.Base Log.Roller Proofs.RollerProofs.
    written stream, and the whole stream when retention is unlimited — for every policy (size limit,
    retention, compression, granularity) and every sequence of writes, empty writes, flushes and
    restarts.  This is the `_except_` form: see C20_roller_stream_refuted_backward_clock. *)
-Theorem C20_roller_stream_except_backward_clock : forall pol p0 ops,
+Theorem C20_roller_stream_except_backward_clock : forall pol fs p0 ops,
   monotone pol p0 ops ->
-  exists lost, written ops = lost ++ logical (run pol p0 ops)
+  exists lost, written ops = lost ++ logical (run pol fs p0 ops)
                /\ (p_max_retained pol = None -> lost = []).
 Proof. exact run_stream. Qed.
 
@@ -24,8 +24,8 @@ Theorem C20_roller_stream_refuted_backward_clock : ~ stream_full.
 Proof. exact stream_refuted_backward_clock. Qed.
 
 (* ... but even with an arbitrary clock nothing is lost or duplicated while retention is unlimited *)
-Theorem C20_roller_no_loss_no_dup_any_clock : forall pol p0 ops,
-  p_max_retained pol = None -> Permutation (written ops) (all_records (run pol p0 ops)).
+Theorem C20_roller_no_loss_no_dup_any_clock : forall pol fs p0 ops,
+  p_max_retained pol = None -> Permutation (written ops) (all_records (run pol fs p0 ops)).
 Proof. exact run_perm. Qed.
 
 (* the order used by `logical`: the directory never holds two rolled files with the same
@@ -37,7 +37,7 @@ Proof.
   split; [exact Hs | apply descK_NoDup; exact Hs].
 Qed.
 
-Theorem C20_roller_run_reachable : forall pol p0 ops, reach pol (run pol p0 ops).
+Theorem C20_roller_run_reachable : forall pol fs p0 ops, reach pol (run pol fs p0 ops).
 Proof. exact run_reach. Qed.
 
 (* ---- (b) no tear: a roll happens only between writes.  One write call = optional time roll,
@@ -55,14 +55,14 @@ Proof. exact write_atomic. Qed.
 (* the size rule: current_size is the true size; between API calls the active file is empty or
    below the limit; no rolled file had reached the limit before its last record (a file is rolled by
    the very write that reaches the limit, so it overshoots by less than one record) *)
-Theorem C20_roller_size_rule : forall pol p0 ops,
-  let st := run pol p0 ops in
+Theorem C20_roller_size_rule : forall pol fs p0 ops,
+  let st := run pol fs p0 ops in
   cur_size st = bytes (adisk st ++ abuf st) /\
   (forall m, p_max_size pol = Some m -> cur_size st = 0 \/ cur_size st < m) /\
   (forall m f i r, p_max_size pol = Some m -> In f (rolled st) -> rdata f = i ++ [r] ->
                    bytes i = 0 \/ bytes i < m).
 Proof.
-  intros pol p0 ops. destruct (run_size pol p0 ops) as [A B C]. split; [exact A|]. split; [exact B|].
+  intros pol fs p0 ops. destruct (run_size pol fs p0 ops) as [A B C]. split; [exact A|]. split; [exact B|].
   intros m f i r Em Hf Ed. exact (C m f Em Hf i r Ed).
 Qed.
 
@@ -118,25 +118,39 @@ Proof.
   unfold append. cbn [rolled]. apply bufwrite_rolled.
 Qed.
 
+(* ---- foreign files.  `fs` = files in the directory that are not named "<prefix>.<period>.<seq>...":
+   rolled files of a sibling appender whose prefix extends this one, unrelated files.  Every theorem
+   above holds with any `fs` present (they quantify over it).  No step ever touches them, and the
+   roller's own behaviour (sequence numbers, retention, compression, contents) is the same whatever
+   foreign files exist.  (/repo before commit 95e064e violated this: F-roller-prefix, fixed.) *)
+Theorem C20_roller_foreign_untouched : forall pol fs p0 ops,
+  foreign (run pol fs p0 ops) = fs /\
+  (forall fs', run pol fs' p0 ops = with_foreign (run pol fs p0 ops) fs').
+Proof. exact run_foreign. Qed.
+
+Theorem C20_roller_foreign_untouched_step : forall pol st o, foreign (step pol st o) = foreign st.
+Proof. exact step_foreign. Qed.
+
 (* ---- non-vacuity *)
 (* size rolls 1,2 in minute 0, a time roll (sequence continues with 3), compression of all but the
    newest rolled file, retention of 3: the oldest file is deleted, the rest reads back in order *)
 Example C20_roller_example_run :
   let pol := mkPolicy false (Some 10) (Some 3) (Some 1) in
   let ops := [Write 0 (1, 12); Write 0 (2, 12); Write 0 (3, 4); Write 1 (4, 12); Restart 1; Write 2 (5, 3); Flush] in
+  let fs := [(0, [(900, 5)]); (1, [(901, 5)])] in
   monotone pol 0 ops /\
-  run pol 0 ops = mkState [mkFile 1 2 false []; mkFile 1 1 true [(4, 12)]; mkFile 0 3 true [(3, 4)]]
-                          [(5, 3)] [] 3 2 [(0, 2); (0, 1)] /\
-  logical (run pol 0 ops) = [(3, 4); (4, 12); (5, 3)].
+  run pol fs 0 ops = mkState [mkFile 1 2 false []; mkFile 1 1 true [(4, 12)]; mkFile 0 3 true [(3, 4)]]
+                             [(5, 3)] [] 3 2 [(0, 2); (0, 1)] fs /\
+  logical (run pol fs 0 ops) = [(3, 4); (4, 12); (5, 3)].
 Proof. vm_compute. repeat split; discriminate. Qed.
 
 (* the witness of the refutation, as replayed on the implementation:
    "daily 6 1 - app .log _ 5 0 w 3 0 1 7 w 3 0 2 7 f" *)
 Example C20_roller_example_backward_clock :
-  run clock_witness_pol 5 clock_witness_ops = mkState [mkFile 5 1 false [(1, 7)]] [] [] 0 3 [(3, 1)]
+  run clock_witness_pol [] 5 clock_witness_ops = mkState [mkFile 5 1 false [(1, 7)]] [] [] 0 3 [(3, 1)] []
   /\ ~ monotone clock_witness_pol 5 clock_witness_ops.
 Proof. split; [exact clock_witness_state|]. vm_compute. intros [H _]. apply H. reflexivity. Qed.
 
 Example C20_roller_example_backward_clock_reorder :
-  logical (run (mkPolicy false (Some 6) None None) 5 clock_witness_ops) = [(2, 7); (1, 7)].
+  logical (run (mkPolicy false (Some 6) None None) [] 5 clock_witness_ops) = [(2, 7); (1, 7)].
 Proof. exact clock_witness_reorder. Qed.
